@@ -25,14 +25,21 @@ def _outer_states(c, outer, ie0):
     c.mode = "plain" if outer == "none" else "g1"
 
 
+# Every gadget-layer contract (C01-C07) is proved per flag/guard MODE; the modes are exactly the states these three
+# functions establish and restore (errors off while ANY enclosing guard is false, LinComb.ONE = the current guard,
+# state restored on every exit).  Their clauses are therefore obligations of each of those properties, not of C08 only.
+MODE_STATE_PROPS = ("C01", "C02", "C03", "C04", "C05", "C06", "C07", "C08")
+
+
 @register
 class AddGuard(Contract):
     """add_guard(cond): returns the old state; new guard = old guard AND cond; errors are ignored
     from here on iff they were before or cond is false; constants are multiplied by the guard."""
     name = "pysnark.runtime:add_guard"
     assigns = GUARD_STATE
-    vprops = ("C08",)
-    fprops = ("C08", "C07")      # C07 rests on the state these functions maintain: errors stay off while ANY enclosing guard is false
+    vprops = MODE_STATE_PROPS
+    fprops = MODE_STATE_PROPS
+    facets = "VRFTNK"
     cprops = sprops = eprops = ()
     tprops = ("C06",)       # entering a nested region must cost the same constraints whatever the outer guard's value
     guard_relevant = False
@@ -106,8 +113,9 @@ class AddGuard(Contract):
 class RestoreGuard(Contract):
     name = "pysnark.runtime:restore_guard"
     assigns = GUARD_STATE
-    vprops = ("C08",)
-    fprops = ("C08", "C07")      # C07 rests on the state these functions maintain: errors stay off while ANY enclosing guard is false
+    vprops = MODE_STATE_PROPS
+    fprops = MODE_STATE_PROPS
+    facets = "VRFTNK"
     cprops = sprops = eprops = tprops = ()
     guard_relevant = False
 
@@ -141,8 +149,9 @@ class Guarded(Contract):
     the state after the call is the state before it."""
     name = "pysnark.runtime:guarded.<locals>._guarded.<locals>.__guarded"
     assigns = GUARD_STATE
-    vprops = ("C08",)
-    fprops = ("C08", "C07")      # C07 rests on the state these functions maintain: errors stay off while ANY enclosing guard is false
+    vprops = MODE_STATE_PROPS
+    fprops = MODE_STATE_PROPS
+    facets = "VRFTNK"
     cprops = sprops = eprops = tprops = ()
     guard_relevant = False
     modules = ("pysnark.runtime", "pysnark.boolean")
